@@ -51,6 +51,8 @@ pub fn run(ctx: &mut Ctx, suite: &str) {
         "c13e" => c12::run_shutdown_emfile(ctx),
         "c13p" => c12::run_permit(ctx),
         "c13w" => c12::run_c13w(ctx),
+        "c13b" => c12::run_shutdown_busy(ctx),
+        "c12i" => c12::run_emfile_idle(ctx),
         "c11w" => c06::run_c11w(ctx),
         "c10r" => c12::run_upload_revoked(ctx),
         "c20w" => c04::run_c20w(ctx),
@@ -97,6 +99,8 @@ pub fn replay(ctx: &mut Ctx, tag: &str, args: &[&str]) {
         "c12b" => c12::case_tokens_big(ctx, args[0], args[1]),
         "c13e" => c12::case_shutdown_emfile(ctx, args[0], args[1]),
         "c13p" => c12::case_permit(ctx, args[0], args[1]),
+        "c13b" => c12::case_shutdown_busy(ctx, args[0]),
+        "c12i" => c12::case_emfile_idle(ctx, args[0]),
         "c13" => c12::case_shutdown(ctx, args[0], args[1], args[2]),
         "c08s" => c12::case_stall(ctx, args[0]),
         "c19s" => c19::case_set(ctx, args[0], args[1]),
